@@ -457,8 +457,12 @@ struct Extractor : RecursiveASTVisitor<Extractor> {
 		}else if(auto *cl = dyn_cast<CharacterLiteral>(s)) {
 			J.attribute("ch", (int64_t)cl->getValue());
 		}else if(auto *sl = dyn_cast<StringLiteral>(s)) {
-			if(sl->isAscii() || sl->isUTF8())
-				J.attribute("str", sl->getString());
+			if(sl->isAscii() || sl->isUTF8()) {
+				if(llvm::json::isUTF8(sl->getString()))
+					J.attribute("str", sl->getString());
+				else
+					J.attribute("str", llvm::json::fixUTF8(sl->getString()));
+			}
 			J.attribute("len", (int64_t)sl->getLength());
 		}else if(auto *bl = dyn_cast<CXXBoolLiteralExpr>(s)) {
 			J.attribute("bv", bl->getValue());
